@@ -31,7 +31,7 @@ Section Thm.
   Local Notation InvC := (InvC c).
   Local Notation InvD := (InvD items).
 
-  Lemma run_inv sched : InvC (run c sched (init c items)) /\ InvD (run c sched (init c items)).
+  Lemma run_inv sched : InvC (runs c sched (init c items)) /\ InvD (runs c sched (init c items)).
   Proof.
     destruct (run_reachable c items sched) as [tr E]. eapply Inv_execs; eauto.
   Qed.
@@ -169,7 +169,7 @@ Section Thm.
   (** no failing input: the caller gets the sequential result, whatever the schedule *)
   Lemma done_sequential sched :
     NoDup (map b_off (blocks_of items)) ->
-    let s := run c sched (init c items) in
+    let s := runs c sched (init c items) in
     main_done s = true ->
     result s = Some (seq_result (blocks_of items)) /\
     Permutation (blocks_of items) (ab s) /\
